@@ -549,6 +549,10 @@ func (v *visitor) BuiltinNode(node *ast.BuiltinNode) reflect.Type {
 
 func (v *visitor) ClosureNode(node *ast.ClosureNode) reflect.Type {
 	t := v.visit(node.Node)
+	if t == nil {
+		// The body has no static type (nil): the closure returns a dynamic value.
+		t = interfaceType
+	}
 	return reflect.FuncOf([]reflect.Type{interfaceType}, []reflect.Type{t}, false)
 }
 
